@@ -1380,6 +1380,22 @@ impl FdlActiveStation {
         debug_assert_state!(self.state, State::CheckTokenPass { .. });
 
         if self.check_slot_expired(now) {
+            if self.pending_bytes > 0 {
+                // Something was transmitted after our token pass, but it never became a complete
+                // telegram (e.g. a telegram that was cut off).  Someone else is or was active, so
+                // the bus is not ours for a retry: back off to ActiveIdle like for any other
+                // activity after the pass.  Retrying here would happen at the very same moment at
+                // which the station that sent the fragment retries as well.
+                log::warn!(
+                    "Incomplete telegram after token pass to #{}",
+                    self.token_ring.next_station()
+                );
+                // The fragment will never be completed after a whole slot time of silence.
+                phy.receive_data(now, |buffer| (buffer.len(), ()));
+                self.pending_bytes = 0;
+                self.state.transition_active_idle();
+                return PollDone::waiting_for_bus();
+            }
             match *self.state.get_check_token_pass_attempt() {
                 PassTokenAttempt::First => {
                     log::warn!(
